@@ -7,7 +7,7 @@ def answer (line : String) : String :=
   match toks with
   | [] => "err:empty"
   | op :: args =>
-    match (Skglm.Ops.penOps op <|> Skglm.Ops.dfOps op) with
+    match (Skglm.Ops.penOps op <|> Skglm.Ops.dfOps op <|> Skglm.Ops.blkOps op) with
     | none => s!"err:unknown-op:{op}"
     | some p =>
       match p.run args with
